@@ -61,6 +61,8 @@ class Sandbox:
             if n["k"] == "d":
                 os.mkdir(p)
                 os.chmod(p, n.get("mode", 0o755))
+            elif n["k"] == "f" and n.get("hardlink"):
+                continue                      # second pass: the other name may not exist yet
             elif n["k"] == "f" and n.get("special") == "fifo":
                 os.mkfifo(p)
                 os.chmod(p, n.get("mode", 0o644))
@@ -72,6 +74,18 @@ class Sandbox:
                 os.symlink(self.to_real(n["target"]), p)
             else:
                 raise MachineryError("bad node kind")
+        for n in nodes:
+            if n.get("owner") is not None:           # an owner the user database does not know (archives, NFS, containers)
+                os.lchown(self.to_real(n["p"]), n["owner"], n["owner"])
+        for n in nodes:
+            if n["k"] == "f" and n.get("hardlink"):
+                src = self.to_real(n["hardlink"])
+                if os.path.isfile(src) and not os.path.islink(src):
+                    os.link(src, self.to_real(n["p"]))
+                else:                                   # (a later tweak of the world replaced the other name: a plain file)
+                    with open(self.to_real(n["p"]), "wb") as f:
+                        f.write(self.to_real(n.get("data", b"")))
+                    os.chmod(self.to_real(n["p"]), n.get("mode", 0o644))
         for n in reversed(nodes):
             if n["k"] != "l":
                 t = n.get("mtime", MTIME_EPOCH)
@@ -622,6 +636,33 @@ def child_main(sb, world, plan, wfd, gate=None):
         out_b, err_b = io.BytesIO(), io.BytesIO()
         sys.stdout = io.TextIOWrapper(out_b, encoding="utf-8", errors="surrogateescape", write_through=True)
         sys.stderr = io.TextIOWrapper(err_b, encoding="utf-8", errors="surrogateescape", write_through=True)
+        harness_err = sys.stderr
+        if plan.get("stderr_fault"):
+            # the diagnostics go to a full disk or a closed pipe: the n-th write to stderr fails (and every later one)
+            sf = plan["stderr_fault"]
+            real_err = sys.stderr
+
+            class FaultyStderr:
+                encoding, errors = "utf-8", "surrogateescape"
+
+                def __init__(self):
+                    self.n = 0
+
+                def write(self, text):
+                    self.n += 1
+                    if self.n > sf["nth"]:
+                        raise OSError(getattr(errno_mod, sf["errno"]), os.strerror(getattr(errno_mod, sf["errno"])))
+                    return real_err.write(text)
+
+                def flush(self):
+                    return real_err.flush()
+
+                def isatty(self):
+                    return False
+
+                def fileno(self):
+                    raise io.UnsupportedOperation("fileno")
+            sys.stderr = FaultyStderr()
         stdin = world.get("stdin")
         sys.stdin = io.TextIOWrapper(io.BytesIO(stdin if stdin is not None else b""), encoding="utf-8",
                                      errors="surrogateescape")
@@ -655,7 +696,7 @@ def child_main(sb, world, plan, wfd, gate=None):
         except BaseException as e:
             result["exit"] = 1
             result["exc"] = type(e).__name__
-            sys.stderr.write("Traceback (most recent call last):\n%s: %s\n" % (type(e).__name__, e))
+            harness_err.write("Traceback (most recent call last):\n%s: %s\n" % (type(e).__name__, e))
             result["tb"] = traceback.format_exc()[-1500:]
         result["t0"], result["t1"] = t0, time.time()
         tracer.internal += 1
